@@ -105,7 +105,7 @@ def runOps : List Op → Bs → List V → Except (Exit × Bs × List V) (Bs × 
 def timeoutMsg : String := "RuntimeError: timeout"
 def notBindingsMsg : String := "isn't Bindings"
 def badEmitMsg : String := "json: unsupported"
-def badRetMsg : String := "json: unsupported value: NaN"
+def badRetMsg : String := "json: unsupported"
 
 /-- the meaning of a program as an `ActionF` -/
 def Prog.run (p : Prog) : ActionF := fun bs =>
